@@ -342,6 +342,25 @@ def run(ctx, rep):
             rep.violation('A5.8', vkey('A5.8', TR.name, 'chain-op', ''), TR.loc(TR.span),
                           'File::truncate can return Ok without releasing the rest of the chain')
 
+    # ---------------- A5.9 "no space" is what a scan of the table says
+    n9 = 0
+    for fn in fat:
+        for bi in sorted(fn.reachable()):
+            for s_ in fn.blocks[bi]['stmts']:
+                rv_ = s_['rv'] if s_['k'] == 'assign' else None
+                if rv_ is None or rv_['k'] != 'agg' or rv_.get('variant') != 'NotEnoughSpace' or \
+                        not (rv_.get('adt') or '').endswith('error::Error'):
+                    continue
+                n9 += 1
+                ok = fn.file() == 'src/table.rs'
+                rep.oblige('A5.9', '%s|bb%d' % (fn.name, bi), ok=ok, nontrivial=True, sample={'fn': fn.name, 'at': fn.loc(s_['span'])})
+                if not ok:
+                    rep.violation('A5.9', vkey('A5.9', fn.name, 'no-space-source', ''), fn.loc(s_['span']),
+                                  '%s reports NotEnoughSpace itself instead of passing on what a scan of the allocation table found: '
+                                  'a decision taken from a cached count (or any other bookkeeping) is wrong whenever the cache is - e.g. '
+                                  'after a chain release that was interrupted by a device error' % fn.name)
+    rep.counts['A5.9'] = n9
+
     # ---------------- X2 FAT32 mask agreement
     n_x2 = 0
     # provided methods of the trait are judged in their FAT32 instance (Self = Fat<u32>): the shared body then runs on
